@@ -205,6 +205,36 @@ def run(report, p):
     if sites == 0:
         raise AnalysisError("no site registering child histories found")
 
+    # ------------------------------------------------------------------ R5.7 nothing hides a nested history from the loader
+    r7 = report.rule(
+        "R5.7",
+        "discovery: while walking the tree below a history root, every directory (other than the root itself) that contains an ascmhl folder is handed to the verifying loader; "
+        "no further condition can exempt a nested ascmhl folder (an emptied or chain-less one must still be refused with 32/33)",
+        1,
+    )
+    disc = [f for f in p.funcs.values() if f.cls == hist_cls and loader.qual in [t for _, tg in p.calls[f.qual] for t in tg] and any(t == "ext:os.walk" for _, tg in p.calls[f.qual] for t in tg)]
+    if not disc:
+        raise AnalysisError("child-history discovery (method walking the tree and calling the loader) not found")
+    for df in disc:
+        gd = cfg_of(df)
+        for call, tg in p.calls[df.qual]:
+            if loader.qual in tg:
+                r7.instance(df, call, norm(call)[:80])
+                deps = [(tt, l) for tt, l in gd.control_deps(gd.node_for(call)) if tt.kind == "test"]
+                extra = []
+                seen_root, seen_in = False, False
+                for tt, l in deps:
+                    s2 = norm(tt.ast).replace(" ", "")
+                    if isinstance(tt.ast, ast.Compare) and isinstance(tt.ast.ops[0], ast.NotEq) and l == "T" and "root" in s2:
+                        seen_root = True
+                    elif isinstance(tt.ast, ast.Compare) and isinstance(tt.ast.ops[0], ast.In) and l == "T" and "ascmhl_folder_name" in s2:
+                        seen_in = True
+                    else:
+                        extra.append((norm(tt.ast), l))
+                r7.check(seen_root and seen_in and not extra, df, call, f"a nested history is loaded (and thereby verified) only under the additional condition {extra}: a nested ascmhl folder that fails it is silently treated as ordinary content", construct=f"child load under extra condition {extra}")
+                a0 = call.args[0] if call.args else None
+                r7.check(a0 is not None and all(o[0] == "elem" and is_call(o[1], "os.walk") for o in pr.origins(a0, df)) or (a0 is not None and any(o[0] == "elem" for o in pr.origins(a0, df))), df, call, "the nested history is not loaded from the directory that contains the ascmhl folder")
+
     # ------------------------------------------------------------------ R5.4 load before act
     r4 = report.rule(
         "R5.4",
